@@ -38,7 +38,7 @@ theorem remake_inside_head (c : Cfg) (clean : Bool) (fs : FS) (n : Nat) (ht : c.
     simp only [ht, Bool.false_eq_true, ↓reduceIte]
     have hB : c.head <+: dirname (c.head ++ tailSegs clean ++ q.reverse) := by
       unfold dirname
-      rw [List.append_assoc, List.dropLast_append_of_ne_nil (by cases clean <;> simp [tailSegs])]
+      rw [List.append_assoc, List.dropLast_append_of_ne_nil (tail_append_ne_nil clean _)]
       exact List.prefix_append _ _
     refine ⟨afterPath_touched c clean fs _ c.head hB ?_, fun p h => ?_⟩
     · intro r hr' hnb hne
@@ -66,7 +66,7 @@ theorem remake_inside_tempdir (c : Cfg) (clean : Bool) (fs : FS) (n : Nat) (ht :
     have hB : c.tempHead ++ [tmpSeg n] <+: dirname (c.tempHead ++ [tmpSeg n] ++ tailSegs clean ++ q.reverse) := by
       unfold dirname
       rw [List.append_assoc (c.tempHead ++ [tmpSeg n]),
-        List.dropLast_append_of_ne_nil (by cases clean <;> simp [tailSegs])]
+        List.dropLast_append_of_ne_nil (tail_append_ne_nil clean _)]
       exact List.prefix_append _ _
     have hmk : Touched fs (fs ++ [(c.tempHead ++ [tmpSeg n], Kind.dir)]) (fun x => c.tempHead ++ [tmpSeg n] <+: x) := by
       intro e
@@ -178,7 +178,7 @@ theorem base_preserved (c : Cfg) (fs fs' : FS) (ht : Touched fs fs' (InHead c))
 theorem below_tail_dirname {B p : P} {clean : Bool} (h : B ++ tailSegs clean <+: p) : B <+: dirname p := by
   obtain ⟨t, rfl⟩ := h
   unfold dirname
-  rw [List.append_assoc, List.dropLast_append_of_ne_nil (by cases clean <;> simp [tailSegs])]
+  rw [List.append_assoc, List.dropLast_append_of_ne_nil (tail_append_ne_nil clean _)]
   exact List.prefix_append _ _
 
 theorem close_inside (c : Cfg) (s : St) (clear : Bool) (hi : Inv c s) :
